@@ -24,6 +24,8 @@ Items(stim) == [i \in 1..Len(stim.items) |->
                   IF it.k = "pend" THEN [k |-> "pend"]
                   ELSE IF it.k = "err" THEN [k |-> "err", code |-> it.code]
                   ELSE IF it.k = "encfail" THEN [k |-> "encfail"]
+                  \* 2^32 + it.extra bytes (1 <= extra): over the limit unless none is configured (-1), or it is usize::MAX (-4) or 2^32 + 16 (-3) with extra <= 16
+                  ELSE IF it.k = "huge" THEN [k |-> "huge", over |-> ~(stim.limit_enc \in {-1, -4} \/ (stim.limit_enc = -3 /\ it.extra <= 16))]
                   ELSE IF Has(it, "wl") /\ stim.enc # "identity" /\ ~stim.override THEN [k |-> "msg", ser |-> SerOfItem(it, stim.codec), wl |-> it.wl]
                   ELSE [k |-> "msg", ser |-> SerOfItem(it, stim.codec)]]
 Compressed(stim) == stim.enc # "identity" /\ ~stim.override
